@@ -56,6 +56,10 @@ int main(void)
 	CZ(SFQS_ERROR_SUPER_MAGIC); CZ(SFQS_ERROR_SUPER_VERSION); CZ(SQFS_ERROR_SUPER_BLOCK_SIZE);
 	CZ(SQFS_ERROR_NOT_DIR); CZ(SQFS_ERROR_NO_ENTRY); CZ(SQFS_ERROR_LINK_LOOP); CZ(SQFS_ERROR_NOT_FILE);
 	CZ(SQFS_ERROR_ARG_INVALID); CZ(SQFS_ERROR_SEQUENCE);
+	C(SQFS_BLK_DONT_COMPRESS); C(SQFS_BLK_DONT_HASH); C(SQFS_BLK_DONT_FRAGMENT); C(SQFS_BLK_DONT_DEDUPLICATE);
+	C(SQFS_BLK_IGNORE_SPARSE); C(SQFS_BLK_IS_SPARSE); C(SQFS_BLK_FIRST_BLOCK); C(SQFS_BLK_LAST_BLOCK);
+	C(SQFS_BLK_IS_FRAGMENT); C(SQFS_BLK_FRAGMENT_BLOCK); C(SQFS_BLK_IS_COMPRESSED);
+	C(SQFS_BLK_USER_SETTABLE_FLAGS); C(SQFS_BLK_FLAGS_ALL);
 	C(TAR_RECORD_SIZE);
 	SZ(tar_header_t);
 	OFF(tar_header_t, name); OFF(tar_header_t, mode); OFF(tar_header_t, uid); OFF(tar_header_t, gid);
